@@ -98,11 +98,15 @@ def run_bounded(rep, name, tier, seed, budget_quick=25.0, budget_thorough=480.0)
     if cases_fn is None or not hasattr(oracles, 'oracle_' + name):
         rep.notes.append('bounded stand-in for %s not available' % name)
         return None
-    budget = budget_quick if tier == 'quick' else budget_thorough
+    # quick: the domain is fixed and is enumerated completely (3-16 s on an idle 16-core machine); the time value is only
+    # a safety cap, wide enough that a busy machine does not change what is explored.  thorough: as deep as the cap allows.
+    budget = budget_quick * 10 if tier == 'quick' else budget_thorough
     r = bounded.run(name, 'oracle_' + name, cases_fn(tier, seed),
                     classify_name='classify_' + name if hasattr(oracles, 'classify_' + name) else None,
                     budget_s=budget, rule=getattr(oracles, 'RULE_' + name, ''),
                     chunk=getattr(oracles, 'CHUNK_' + name, 200))
+    if not r.get('exhaustive', True) and tier == 'quick':
+        print('NOTE: the bounded stand-in of %s was cut by its time cap after %d cases' % (name, r.get('evaluations', 0)))
     r['label'] = 'BOUNDED stand-in (not proof): oracle = executable transcription of the property statement'
     rep.bounded.append(r)
     return r
